@@ -16,7 +16,7 @@ def mk_backend(npol, nbits, nant, nb, taps, nc, sc, spb_mult, sr, asc=True, bpf=
         streams = src.streams
     else:
         src = stg.voltage.MultiAntennaArray(num_antennas=nant, sample_rate=sr, fch1=1e9, ascending=asc, num_pols=npol,
-                                            delays=[0] * nant, seed=seed)
+                                            delays=[(3 * q + seed) % 5 for q in range(nant)], seed=seed)      # non-zero delays: the clock advances by the samples delivered
         streams = [s for a in src.antennas for s in a.streams]
     for s in streams:
         s.add_noise(0, 1)
@@ -86,6 +86,8 @@ for i in range(R.n(8, 60)):
     drawn = (want + c['taps'] * c['nb'])
     adv = (src.t_start - t0) * c['sr']
     R.check('record/clock-advance', dict(c, n=n), abs(adv - drawn) <= 1e-6 * drawn, adv, drawn)
+    if c['nant'] > 1:
+        R.check('record/member-streams-on-the-array-clock', dict(c, n=n), all(abs(st.t_start - src.t_start) <= 1e-9 for a_ in src.antennas for st in a_.streams), None)
     for fn in os.listdir(R.tmp):
         os.unlink(os.path.join(R.tmp, fn))
 
